@@ -1,5 +1,6 @@
 import Xp.Proofs.C19Final
 import Xp.Proofs.C19Owner
+import Xp.Proofs.C19World
 import Xp.Gen.C19
 /-
 C19 — an in-use resource cannot be deleted; protection ends exactly when use ends.
@@ -13,9 +14,20 @@ the start of a reconcile, or ONE API call of a reconcile under a fault outcome
 therefore an arbitrary interleaving together with an arbitrary fault plan, and the
 theorems quantify over all of them.
 
+Further actions (hardening round): `.er` — another writer (the XR composer patching a
+composed resource, a provider, a user) edits the labels of a resource, which moves its
+resourceVersion: part of every `listFresh` schedule, so all theorems below cover real
+conflicts between a reconcile's read and its write; `.stepW` — one API call of a reconcile
+answered by the world (`Call`): the informer cache's answer to the cached reads (`Get` of the
+Usage, indexed `List` of Usages) and the error class of an injected failure; `.xaRaw` — the
+composer re-applying a Usage through a version `RespectOwnerRefs` does not recognise.
+
 Hypotheses that appear in statements:
-* `listFresh as` — every Usage List in the schedule (reconciler and webhook) returns
-  the current index. Informer-cache staleness is outside the property's quantifier.
+* `listFresh as` — the plain world: every Usage read in the schedule (reconciler and webhook)
+  is answered from the live store, no `.stepW`, no `.xaRaw`. Informer-cache staleness is outside
+  the property's quantifier; the marker clauses are FALSE under cache lag even for one worker
+  (`marker_fails_under_cache_lag`, `delete_allowed_under_cache_lag`: findings). Error classes
+  are covered by `*_any_error_class` (schedules whose `.stepW` are classed failures).
 * `Sys.init 1` — MaxConcurrentReconciles = 1 for the Usage controller. The marker
   clauses are FALSE for two overlapping reconciles of Usages of the same resource
   (`marker_fails_with_two_workers`, defect D16 of the unchanged tree); everything
@@ -93,6 +105,9 @@ theorem marker_before_ready (as : List Action) (a : Action) (hfresh : listFresh 
   | gcU n => exact (from_ (gcUsage_from _ n u' hu')).elim
   | xa n c => exact (from_ (reapplyUsage_from _ n c u' hu')).elim
   | gcR g k n => exact (old (by rw [← (SameUsages.gcRes pre.store g k n).usages]; exact hu')).elim
+  | er g k n l => exact (old (by rw [← (SameUsages.touchRes pre.store g k n l).usages]; exact hu')).elim
+  | stepW n o c => simp [Action.fresh] at hfa
+  | xaRaw n c => simp [Action.fresh] at hfa
   | start n =>
     refine (old ?_).elim
     simp only [Sys.exec] at hu'
@@ -314,6 +329,9 @@ theorem removed_only_with_last (maxc : Nat) (as : List Action) (a : Action) (hfr
   | gcU n => exact (old (by rw [← gcUsage_res pre.store n]; exact hr')).elim
   | xa n c => exact (old (by rw [← reapplyUsage_res pre.store n c]; exact hr')).elim
   | gcR g k n => exact (from_ (gcRes_res_from _ g k n r' hr')).elim
+  | er g k n l => exact (from_ (touchRes_res_from _ g k n l r' hr')).elim
+  | stepW n o c => simp [Action.fresh] at hfa
+  | xaRaw n c => simp [Action.fresh] at hfa
   | start n =>
     refine (old ?_).elim
     simp only [Sys.exec] at hr'
@@ -658,5 +676,225 @@ example : ((Sys.init 1).run demoSchedule).store.usages.any (fun u => u.ready && 
 
 example : (((Sys.init 1).run demoSchedule).store.deleteRes "ex.org" "Thing" "r0" "Foreground" true true none).2 =
     .done true .denied := by decide
+
+/-! ## hardening round: error classes, informer cache, other writers, identity -/
+
+/-! ### (d) error classes -/
+
+/-- **error_class_irrelevant.** What the reconciler does with a failed call depends only on
+`IsNotFound` / `IsConflict`: every other class (AlreadyExists, Invalid, and `.other` = Forbidden,
+Timeout, ServiceUnavailable, a transport error, a context deadline) is handled like a generic error,
+at every program counter. -/
+theorem error_class_irrelevant (t : Thread) (seen : List Usage) (e : Err) (h1 : e ≠ .notFound) (h2 : e ≠ .conflict) :
+    t.next seen (.err e) = t.next seen (.err .other) := next_err_class t seen e h1 h2
+
+/-- **failed_call_ends_reconcile.** A failed call of ANY class ends the reconcile (nothing later in
+the reconcile - in particular not the status update that reports Ready, nor the label removal - is
+reached on the strength of a failed call), with one exception the code names: NotFound for the using
+or the used resource of a Usage being deleted means "already gone". -/
+theorem failed_call_ends_reconcile (t : Thread) (seen : List Usage) (e : Err) :
+    (∃ r, t.next seen (.err e) = .done r) ∨ (e = .notFound ∧ (t.pc = .dGetUsing ∨ t.pc = .dGetUsed)) :=
+  next_err_done t seen e
+
+/-- a failed call never reports success -/
+theorem failed_call_never_polls (t : Thread) (seen : List Usage) (e : Err) : t.next seen (.err e) ≠ .done .poll :=
+  next_err_ne_poll t seen e
+
+/-- **any_error_class.** A schedule in which injected failures carry arbitrary error classes (all
+but NotFound, which a live read never returns for an object that exists) reaches exactly the
+state the schedule with generic failures reaches - so every theorem stated over `listFresh`
+schedules holds for it. -/
+theorem any_error_class (sys : Sys) (as : List Action) (h : ∀ a ∈ as, Action.classOnly a = true) :
+    sys.run as = sys.run (as.map Action.unclass) ∧ listFresh (as.map Action.unclass) := run_unclass sys as h
+
+/-- `marker_while_ready` for every error class -/
+theorem marker_while_ready_any_error_class (as : List Action) (h : ∀ a ∈ as, Action.classOnly a = true) :
+    ∀ u ∈ ((Sys.init 1).run as).store.usages, u.ready = true → u.deleting = false →
+      (∃ r ∈ ((Sys.init 1).run as).store.res, u.names r = true) ∧
+      ∀ r ∈ ((Sys.init 1).run as).store.res, u.names r = true → r.inUse = true := by
+  obtain ⟨h1, h2⟩ := run_unclass (Sys.init 1) as h
+  rw [h1]
+  exact marker_while_ready _ h2
+
+/-- `owned_by_using` for every error class and every number of workers -/
+theorem owned_by_using_any_error_class (maxc : Nat) (as : List Action) (h : ∀ a ∈ as, Action.classOnly a = true) :
+    ∀ u ∈ ((Sys.init maxc).run as).store.usages, u.ready = true → ∀ b, u.by_ = some b →
+      ∃ o ∈ u.owners, (o.uid, groupOf b.av, b.kind, b.name) ∈ ((Sys.init maxc).run as).store.born := by
+  obtain ⟨h1, h2⟩ := run_unclass (Sys.init maxc) as h
+  rw [h1]
+  exact owned_by_using maxc _ h2
+
+/-! ### (c) informer cache -/
+
+/-- **lagging_usage_never_written.** A reconcile whose copy of the Usage is not the stored
+version - the informer cache served an older one, or one of an object that is gone - changes no
+Usage, whatever the outcome, the cache's answers and the error class of this call: every write of
+the Usage carries the copy's resourceVersion. (What such a reconcile CAN still do is label or
+unlabel the used resource; see below.) -/
+theorem lagging_usage_never_written (s : Store) (t : Thread) (o : Outcome) (c : Call) (hn : t.u.name = t.uname)
+    (h : ∀ x, s.getU t.uname = some x → x.rv ≠ t.u.rv) : (t.stepW o c s).store.usages = s.usages :=
+  stepW_lagging s t o c hn h
+
+/-- **removal_needs_served_count_below_two.** Whatever the world answers: the reconcile goes on to
+the label-removing Update only when the List it was SERVED counted fewer than two Usages, and the
+Update it then issues is for the resource version it read BEFORE that count (so a change of the
+resource between the count and the removal is a Conflict, `removal_rv_checked`). -/
+theorem removal_needs_served_count_below_two (t t' : Thread) (seen : List Usage) (used used' : Res) (n : Nat)
+    (hpc : t.pc = .dList used) (h : t.next seen (.count n) = .cont t') (h' : t'.pc = .dUnlabel used') :
+    n < 2 ∧ used' = used := by
+  obtain ⟨uname, pc, u, orv, ord, sn⟩ := t
+  simp only at hpc
+  subst hpc
+  simp only [Thread.next] at h
+  split at h
+  · next hn =>
+    simp only [Thread.goto, After.cont.injEq] at h
+    subst h
+    simp only [Pc.dUnlabel.injEq] at h'
+    exact ⟨hn, h'.symm⟩
+  · simp only [Thread.afterUnlabel, Thread.goto] at h
+    split at h
+    · simp only [After.cont.injEq] at h
+      subst h
+      cases h'
+    · cases h
+
+/-- **delete_refused_served.** The webhook's verdict follows the List it is served (`cnt` = the
+number of Usages the informer cache's index returns for the object's key): denied and recorded iff
+that count is positive, allowed iff it is zero. `delete_refused` is the case of a fresh cache. -/
+theorem delete_refused_served (s : Store) (g k n p : String) (r : Res) (cnt : Nat)
+    (hg : s.getR g k n = some r) (hin : r.inUse = true) :
+    ((s.deleteRes g k n p true true (some cnt)).2 = .done true .denied ↔ cnt > 0) ∧
+    ((s.deleteRes g k n p true true (some cnt)).2 = .done true .allowed ↔ cnt = 0) := by
+  have spec := deleteRes_spec s g k n p true true (some cnt)
+  generalize (s.deleteRes g k n p true true (some cnt)).1 = s' at spec
+  generalize (s.deleteRes g k n p true true (some cnt)).2 = res at spec ⊢
+  cases spec with
+  | notFound hg' => rw [hg] at hg'; cases hg'
+  | unlabelled r0 hg' hin' => rw [hg] at hg'; cases hg'; rw [hin] at hin'; cases hin'
+  | refused r0 v hg' _ hv hne =>
+    rw [hg] at hg'; cases hg'
+    have a := admitDelete_spec s r p true true (some cnt)
+    have hok := admitDelete_ok s r p (some cnt)
+    rw [hv] at a hok
+    simp only [Option.getD_some] at a
+    generalize (s.admitDelete r p true true (some cnt)).1 = s1 at a
+    cases a with
+    | listFailed => exact absurd rfl hok
+    | patchFailed _ _ => exact absurd rfl hok
+    | allowed _ => exact absurd rfl hne
+    | deniedRecorded hn _ => exact ⟨⟨fun _ => hn, fun _ => rfl⟩, ⟨fun h => (by cases h), fun h => (by omega)⟩⟩
+    | deniedPatched hn _ => exact ⟨⟨fun _ => hn, fun _ => rfl⟩, ⟨fun h => (by cases h), fun h => (by omega)⟩⟩
+  | admitted r0 hg' _ hv =>
+    rw [hg] at hg'; cases hg'
+    have a := admitDelete_spec s r p true true (some cnt)
+    rw [hv] at a
+    simp only [Option.getD_some] at a
+    generalize (s.admitDelete r p true true (some cnt)).1 = s1 at a
+    cases a with
+    | allowed hn => exact ⟨⟨fun h => (by cases h), fun h => (by omega)⟩, ⟨fun _ => hn, fun _ => rfl⟩⟩
+
+/-- u0 (by reference) is ready on r0 and its user asks for its deletion; u1 selects r0 by labels,
+is created, resolved and reconciled to Ready (ONE worker, one reconcile after the other). The
+reconcile of u0 then lists the Usages of r0 through an informer cache that has not yet delivered
+u1's resolution: it is served a count of 1 (the index value of an unresolved Usage is empty),
+removes the label and lets u0 go. -/
+def lagSchedule : List Action := [
+  .cr "ex.org" "Thing" "r0" [("app", "db")] false "",
+  .cu "u0" raceThing none (some "a") false "",
+  .start "u0", .step "u0" .ok none, .step "u0" .ok none, .step "u0" .ok none, .step "u0" .ok none,
+  .step "u0" .ok none, .step "u0" .ok none,
+  .du "u0",
+  .cu "u1" ⟨"ex.org/v1", "Thing", "", some ⟨[("app", "db")], false⟩⟩ none (some "b") false "",
+  .start "u1", .step "u1" .ok none, .step "u1" .ok none, .step "u1" .ok none, .step "u1" .ok none,
+  .step "u1" .ok none, .step "u1" .ok none, .step "u1" .ok none, .step "u1" .ok none,
+  .start "u0", .step "u0" .ok none, .step "u0" .ok none,
+  .stepW "u0" .ok { count := some 1 },
+  .step "u0" .ok none, .step "u0" .ok none]
+
+/-- **marker_fails_under_cache_lag** (finding). With ONE worker and no fault, a Usage List answered
+by a lagging informer cache makes the unchanged reconciler remove the in-use label while a ready,
+not deleted Usage names the resource; the delete of that resource is then allowed without the
+webhook being consulted. The count served (1) is the index's count in an earlier state of the same
+run - after u1 was created, before its selector was resolved -, which is also the newest state any
+earlier cached read was answered from (u1's own reconcile read u1 unresolved). -/
+theorem marker_fails_under_cache_lag :
+    unmarked ((Sys.init 1).run lagSchedule).store = true ∧
+    (((Sys.init 1).run lagSchedule).store.deleteRes "ex.org" "Thing" "r0" "" true true none).2 =
+      .done false .allowed ∧
+    ((Sys.init 1).run (lagSchedule.take 11)).store.countU (indexKey "ex.org" "Thing" "r0") = 1 := by
+  refine ⟨by decide, by decide, by decide⟩
+
+/-- with a fresh List the same schedule keeps the label -/
+example : unmarked ((Sys.init 1).run (lagSchedule.map fun a =>
+    match a with | .stepW n o _ => .step n o none | a => a)).store = false := by decide
+
+/-- u1 selects r0 (which carries a left-over label) and is reconciled to Ready -/
+def lagHookSchedule : List Action := [
+  .cr "ex.org" "Thing" "r0" [("app", "db")] true "",
+  .cu "u1" ⟨"ex.org/v1", "Thing", "", some ⟨[("app", "db")], false⟩⟩ none (some "b") false "",
+  .start "u1", .step "u1" .ok none, .step "u1" .ok none, .step "u1" .ok none, .step "u1" .ok none,
+  .step "u1" .ok none, .step "u1" .ok none, .step "u1" .ok none, .step "u1" .ok none]
+
+/-- **delete_allowed_under_cache_lag** (finding). A ready, not deleted Usage names r0, r0 carries
+the label, the webhook is consulted - and allows the delete, because its List is answered by an
+informer cache that has not yet delivered the resolution of the Usage's selector (count 0, the
+index's count in the state after the Usage was created). -/
+theorem delete_allowed_under_cache_lag :
+    ((Sys.init 1).run lagHookSchedule).store.usages.any (fun u => u.ready && !u.deleting &&
+      ((Sys.init 1).run lagHookSchedule).store.res.any fun r => u.names r && r.inUse) = true ∧
+    (((Sys.init 1).run lagHookSchedule).store.deleteRes "ex.org" "Thing" "r0" "" true true (some 0)).2 =
+      .done true .allowed ∧
+    ((Sys.init 1).run (lagHookSchedule.take 2)).store.countU (indexKey "ex.org" "Thing" "r0") = 0 ∧
+    (((Sys.init 1).run lagHookSchedule).store.deleteRes "ex.org" "Thing" "r0" "" true true none).2 =
+      .done true .denied := by
+  refine ⟨by decide, by decide, by decide, by decide⟩
+
+/-! ### (b) other writers -/
+
+/-- **label_edit_keeps_marker.** Another writer's label edit never removes (or adds) the in-use
+label: every resource afterwards is a resource from before or has the key and the in-use label of
+one. (`.er` is part of every `listFresh` schedule: `marker_while_ready`, `removed_only_with_last`,
+`delete_refused_while_ready`, ... hold with such edits - and the real Conflicts they cause -
+anywhere between a reconcile's read and its write.) -/
+theorem label_edit_keeps_marker (s : Store) (g k n : String) (l : Labels) :
+    ∀ r' ∈ (s.touchRes g k n l).1.res,
+      r' ∈ s.res ∨ ∃ x ∈ s.res, x.group = r'.group ∧ x.kind = r'.kind ∧ x.name = r'.name ∧ x.inUse = r'.inUse :=
+  touchRes_res_from s g k n l
+
+/-! ### (e) identity: the version of a composed Usage -/
+
+/-- The composer's `RespectOwnerRefs` option, run on current objects of several apiVersions/kinds
+(table regenerated from the tree): it keeps the owner references of a v1beta1 Usage, and of nothing
+that is not a Usage of the apiextensions group. (Whether it recognises the OTHER served version of
+the Usage kind is what `c19ComposerRespects` records; the driver follows the table.) -/
+theorem composer_respects_table :
+    Xp.Gen.c19ComposerRespects.all (fun (av, k, b) =>
+      (!(av == "apiextensions.crossplane.io/v1beta1" && k == "Usage") || b) &&
+      (!b || (groupOf av == "apiextensions.crossplane.io" && k == "Usage"))) = true := by decide
+
+/-- a composed Usage u0 of r0 by r1 under XR x0, reconciled to Ready: owned by x0 and by r1 -/
+def composedSchedule : List Action := [
+  .cr "ex.org" "XR" "x0" [] false "",
+  .cr "ex.org" "Thing" "r0" [] false "",
+  .cr "ex.org" "Other" "r1" [] false "",
+  .cu "u0" raceThing (some ⟨"ex.org/v1", "Other", "r1", none⟩) none true "x0",
+  .start "u0", .step "u0" .ok none, .step "u0" .ok none, .step "u0" .ok none, .step "u0" .ok none,
+  .step "u0" .ok none, .step "u0" .ok none, .step "u0" .ok none, .step "u0" .ok none]
+
+def notOwnedByUser (s : Store) : Bool :=
+  s.usages.any fun u => u.ready && match u.by_ with
+    | some b => !(u.owners.any fun o => s.born.contains (o.uid, groupOf b.av, b.kind, b.name))
+    | none => false
+
+/-- **composer_drops_owner_refs_of_other_version** (the model variant `.xaRaw` of the composer
+re-applying a Usage through a version `RespectOwnerRefs` does not recognise): the ready Usage loses
+the owner reference to its using resource; re-applied through the recognised version it keeps it
+(`composer_keeps_owner_refs`). -/
+theorem composer_drops_owner_refs_of_other_version :
+    notOwnedByUser ((Sys.init 1).run composedSchedule).store = false ∧
+    notOwnedByUser ((Sys.init 1).run (composedSchedule ++ [.xa "u0" "x0"])).store = false ∧
+    notOwnedByUser ((Sys.init 1).run (composedSchedule ++ [.xaRaw "u0" "x0"])).store = true := by
+  refine ⟨by decide, by decide, by decide⟩
 
 end Xp.C19
